@@ -328,7 +328,7 @@ def main():
                 'any string; distinct = distinct bit pattern or distinct string.')
     chk.assumptions = ['python float() and repr are correctly rounded (IEEE round-half-even)',
                        'sign of zero is not checked for number(string)', 'NDEBUG build: asserts are not observed']
-    n = 750 if chk.tier == 'quick' else 60000          # batches of 400 values
+    n = 2500 if chk.tier == 'quick' else 60000          # batches of 400 values
     chk.ensure('plain', 'xvdrv')
     chk.run_cases('c18', 'case', range(n))
     chk.run_cases('c18', 'xpath_case', range(max(200, n // 4)))
